@@ -15,6 +15,7 @@ type NoopSolver struct {
 	mu                 sync.Mutex
 	Presents, CleanUps int
 	FailPresent        error
+	FailCleanUp        error // returned by CleanUp (after counting the call)
 }
 
 func (n *NoopSolver) Present(context.Context, acme.Challenge) error {
@@ -27,7 +28,7 @@ func (n *NoopSolver) CleanUp(context.Context, acme.Challenge) error {
 	n.mu.Lock()
 	defer n.mu.Unlock()
 	n.CleanUps++
-	return nil
+	return n.FailCleanUp
 }
 
 // DNSRecord is one record held by the DNSProviderDouble.
